@@ -590,6 +590,47 @@ def run(prog, rep, tier):
         ok = ok and len(bes) == 2
         rep.ob('R06.8', ok, 'R06.8|%s|tag-mask' % body.nkey, 'tag masked with keystream block 0; lengths block big-endian' if ok else 'tag finalisation differs (mask block / length encoding)', body.loc())
 
+    r06_9(prog, rep)
+
+
+def r06_9(prog, rep):
+    """sizes footer: each entry of compressed_sizes is the byte count of a *closed* brotli stream -- the value pushed is the `pos` counter of the
+    WriterWithCount handed back by CompressorWriter::into_inner() (which emits the stream terminator), not a count read while the compressor is
+    still open; and one size is pushed per closed compressor."""
+    mla = prog.crates['mla']
+    n = 0
+    for body in mla.bodies:
+        if body.impl_adt != 'layers::compress::CompressionLayerWriter' or body.kind == 'Closure':
+            continue
+        closes = [b for b in body.calls() if b.term.cmethod == 'into_inner' and 'CompressorWriter' in (b.term.cargs + cnorm(b.term))]
+        pushes = []
+        for b in body.calls():
+            if b.term.cmethod == 'push' and b.term.args and b.term.args[0].place is not None:
+                o = origins(body, [b.term.args[0].place[0]], through_calls=False)
+                if any(f[-1] == 'compressed_sizes' for f in o.fields):
+                    pushes.append(b)
+        for pu in pushes:
+            n += 1
+            rep.fn(body)
+            a = pu.term.args[1]
+            ok = False
+            why = 'the pushed size is not read from the writer returned by CompressorWriter::into_inner()'
+            e = expr_of(body, a)
+            pl = e[1] if e[0] == 'place' else None
+            if pl is not None and [p[2] for p in pl[1] if p[0] == 'f'] == ['pos']:
+                d = unique_def(body, pl[0]) or next((x for x in body.defs.get(pl[0], []) if x[2] == 'call'), None)
+                if d is not None and d[2] == 'call' and d[0] in [c.idx for c in closes] and body.dominates(d[0], pu.idx):
+                    ok = True
+                    why = 'size = pos of the writer returned by CompressorWriter::into_inner() (stream closed, terminator counted)'
+            rep.ob('R06.9', ok, 'R06.9|%s|compressed_sizes.push|after-stream-closed' % body.nkey, why if ok else
+                   why + ': bytes emitted when the brotli stream is closed are not counted, the sizes footer no longer delimits the blocks', body.loc(pu.idx))
+        # every close records a size
+        for c in closes:
+            okc = any(body.dominates(c.idx, pu.idx) for pu in pushes)
+            rep.ob('R06.9', okc, 'R06.9|%s|into_inner|size-recorded' % body.nkey, 'closing a brotli stream records its compressed size' if okc else
+                   'a brotli stream is closed without recording its size in compressed_sizes', body.loc(c.idx))
+    rep.floor('R06.9', n, 2, 'pushes into compressed_sizes')
+
 
 class _LocalOp:
     def __init__(self, l):
